@@ -348,6 +348,7 @@ type World struct {
 }
 
 var worldCounter atomic.Int64
+var traceFile *os.File
 
 func NewWorld(bin string, clock *Clock, rnd *RandStream) *World {
 	wn := worldCounter.Add(1)
@@ -382,6 +383,9 @@ func (w *World) note(format string, a ...any) {
 	w.digest.Write([]byte{'\n'})
 	if w.TraceOn {
 		w.TraceLn = append(w.TraceLn, s)
+	}
+	if traceFile != nil {
+		fmt.Fprintf(traceFile, "%s %s\n", filepath.Base(w.Root), s)
 	}
 }
 
@@ -572,7 +576,10 @@ func (w *World) reap(p *Proc) {
 		harnessf("interposer died in p%d: %s", p.Idx, p.Stderr)
 	}
 	norm := func(b []byte) []byte { return bytes.ReplaceAll(b, []byte(w.Root), []byte("$W")) }
-	w.note("exit p%d code=%d out=%x err=%x", p.Idx, p.ExitCode, sha256.Sum256(norm(p.Stdout)), sha256.Sum256(norm(p.Stderr)))
+	// stderr text is not part of the trace digest: ergo builds validation
+	// messages by ranging over a Go map, so their part order varies from
+	// process to process (its presence is recorded; stdout is hashed in full)
+	w.note("exit p%d code=%d out=%x err=%v", p.Idx, p.ExitCode, sha256.Sum256(norm(p.Stdout)), len(bytes.TrimSpace(p.Stderr)) > 0)
 }
 
 // Kill terminates a parked (or running) process with SIGKILL.
